@@ -25,7 +25,7 @@ MANIFEST = {
             "Base58 parsers return None for everything and address production raises ImportError; Bech32 on those networks is covered.",
     "technique": "Lean 4 proof (generic in the codecs, table side conditions by decide +kernel) + differential correspondence model vs implementation",
 }
-RULE = ("ops c08registry/c08netfor (every module name and symbol, unknown names)/c08contract (nulldata, nulldata_push, p2s, p2s_wit over push-size boundaries)/c08override (Contract.override_network across networks, with disassembly)/c08kind/c08addr/c08parse/c08info/c08forinfo/c08keyaddr/c08foraddress/c08keyseq (key-object histories) on all networks; kinds x networks x hashes, "
+RULE = ("ops c08txin (TxIn.public_key_sec/address on p2pkh solutions and near misses)/c08registry/c08netfor (every module name and symbol, unknown names)/c08contract (nulldata, nulldata_push, p2s, p2s_wit over push-size boundaries)/c08override (Contract.override_network across networks, with disassembly)/c08kind/c08addr/c08parse/c08info/c08forinfo/c08keyaddr/c08foraddress/c08keyseq (key-object histories) on all networks; kinds x networks x hashes, "
         "all ordered network pairs, payload lengths 0..40 per Base58 prefix, every push form of template data, random scripts, "
         "m-of-n with odd count opcodes; distinct = distinct op line; trivial = result None/unknown")
 ASSUMPTIONS = ["Base58Check/Bech32 and the hashes enter the theorems as functions with the C11 round-trip facts as hypotheses",
@@ -108,6 +108,12 @@ def impl(op: str) -> str:
     if k == "c08parse":
         net = NETS[a[1]]
         return show_contract(net, _quiet(net.parse.address, text_of(a[2])))
+    if k == "c08txin":
+        net = NETS[a[1]]
+        t = net.tx.TxIn(b"\0" * 32 if a[2] == "1" else b"\x11" * 32, 0xFFFFFFFF if a[2] == "1" else 0, unhx(a[3]))
+        sec, ad = _quiet(t.public_key_sec), _quiet(t.address, net.address)
+        return "ok sec=%s address=%s" % (("None" if sec[1] is None else hx(sec[1])) if sec[0] == "ok" else "err:" + sec[1],
+                                         ("None" if ad[1] is None else ad[1]) if ad[0] == "ok" else "err:" + ad[1])
     if k == "c08registry":
         from pycoin.networks import registry
         r = _quiet(registry.network_codes)
@@ -298,6 +304,21 @@ def _parse_disabled(name):
 
 
 def _oracle2(a, k, out):
+    if k == "c08txin" and out.startswith("ok "):
+        sec = out.split(" ")[1][4:]
+        ad = out.split(" ")[2][8:]
+        if a[2] == "1" and (sec != "None" or ad != "(coinbase)"):
+            return "the coinbase input reports a key or an address"
+        if a[2] == "0" and not sec.startswith("err:"):
+            if sec == "None" and ad != "(unknown)":
+                return "an input that reveals no key reports an address"
+            if sec != "None":
+                want = impl("c08kind %s p2pkh %s" % (a[1], hx(_hash160_ref(unhx(sec)))))
+                if want.startswith("ok ") and ad != want[3:]:
+                    return "TxIn.address is not the address of the key the input reveals"
+                ps = pushes(unhx(sec))
+                if not any(unhx(a[3]).endswith(p_) for p_ in ps):
+                    return "public_key_sec is not the data of the script's last push"
     if k == "c08registry":
         if not out.startswith("ok "):
             return "network_codes() raised: " + out
@@ -468,6 +489,22 @@ def _gen(ctx, emit):
         base = [b"\0" * n, b"\xff" * n, bytes(range(n)), bytes([0x12] * n), bytes([0x99] * n)]
         return base + [rb(n) for _ in range(ctx.n(2, 40))]
 
+    # TxIn.public_key_sec / address: pay-to-public-key-hash solutions, and scripts that are not
+    for name in rng.sample(NAMES, min(len(NAMES), ctx.n(6, 60))) + ["btc"]:
+        sig = b"\x30" + rb(rng.choice([8, 69, 70, 71])) + b"\x01"
+        for sec in (b"\x02" + rb(32), b"\x04" + rb(64), rb(33), b"\x02"):
+            good = pushes(sig)[0] + pushes(sec)[0]
+            emit("c08txin %s 0 %s" % (name, hx(good)))
+        emit("c08txin %s 1 %s" % (name, hx(good)))
+        emit("c08txin %s 0 %s" % (name, hx(pushes(b"\x31" + sig[1:])[0] + pushes(sec)[0])))      # first push is not a DER signature
+        emit("c08txin %s 0 %s" % (name, hx(pushes(sig)[0] + b"\x76")))                            # second item is an opcode
+        emit("c08txin %s 0 %s" % (name, hx(pushes(sig)[0] + b"\x00")))                            # … is OP_0
+        emit("c08txin %s 0 %s" % (name, hx(pushes(sig)[0] + pushes(sec)[0] + b"\xac")))           # three items
+        emit("c08txin %s 0 %s" % (name, hx(pushes(sig)[0])))                                       # one item
+        emit("c08txin %s 0 %s" % (name, hx(pushes(sig)[0] + pushes(sec)[0][:-3])))                # truncated push
+        emit("c08txin %s 0 %s" % (name, hx(b"\x4c" + bytes([len(sig)]) + sig + pushes(sec)[0]))) # non-minimal first push
+        emit("c08txin %s 0 -" % name)
+        emit("c08txin %s 0 %s" % (name, hx(rb(rng.randrange(1, 12)))))
     # registry, the remaining contract builders, Contract.override_network
     emit("c08registry")
     for name in NAMES:
